@@ -11,6 +11,7 @@ import (
 
 	"github.com/creachadair/jrpc2"
 	"github.com/creachadair/jrpc2/channel"
+	"github.com/creachadair/jrpc2/handler"
 	"github.com/creachadair/jrpc2/jhttp"
 	"verif/vs"
 )
@@ -790,6 +791,120 @@ func c13Server() *Scenario {
 	}
 }
 
+// c13ServerBatch: batches whose members end in every combination of a result, an error with data, and
+// values the encoder cannot turn into JSON (error data or a raw result that is not JSON). Whatever
+// the server emits for such a batch must still be one valid message; the good members' replies, when
+// a reply is emitted, must be the right ones.
+func c13ServerBatch() *Scenario {
+	kinds := []string{"ok", "err", "err-data-not-json", "err-data-cut", "raw-result-not-json"}
+	return &Scenario{
+		Name:   "server-emitted batch replies: every combination of <=3 members over {result, error, error whose data is not JSON, raw result that is not JSON}",
+		Params: map[string]any{"kinds": kinds, "max_members": 3},
+		Seq: func(r *SeqRun) {
+			var combos [][]int
+			var gen func(cur []int)
+			gen = func(cur []int) {
+				if len(cur) >= 1 {
+					combos = append(combos, append([]int(nil), cur...))
+				}
+				if len(cur) < 3 {
+					for k := range kinds {
+						gen(append(cur, k))
+					}
+				}
+			}
+			gen(nil)
+			var pipe *Pipe
+			marks := make([]int, len(combos)+1)
+			x := vs.Run(nil, func() {
+				lib, peer, p := NewPipe(PipeOpts{Name: "srv", CloseUnblocksRecv: true, Quiet: true})
+				pipe = p
+				hd := func(ctx context.Context, req *jrpc2.Request) (any, error) {
+					var k int
+					req.UnmarshalParams(&handler.Args{&k})
+					switch kinds[k] {
+					case "err":
+						return nil, (&jrpc2.Error{Code: 7, Message: "e"}).WithData([]int{1})
+					case "err-data-not-json":
+						return nil, &jrpc2.Error{Code: 7, Message: "e", Data: json.RawMessage("plain text")}
+					case "err-data-cut":
+						return nil, &jrpc2.Error{Code: 7, Message: "e", Data: json.RawMessage(`{"a":`)}
+					case "raw-result-not-json":
+						return json.RawMessage(`]`), nil
+					}
+					return "OK", nil
+				}
+				srv := jrpc2.NewServer(anyAssigner{hd}, &jrpc2.ServerOptions{Concurrency: 1})
+				srv.Start(lib)
+				for ci, cb := range combos {
+					marks[ci] = len(p.Out)
+					var ms []string
+					for i, k := range cb {
+						ms = append(ms, fmt.Sprintf(`{"jsonrpc":"2.0","id":%d,"method":"m","params":[%d]}`, i+1, k))
+					}
+					peer.Send([]byte("[" + strings.Join(ms, ",") + "]"))
+					vs.AwaitQuiescence()
+				}
+				marks[len(combos)] = len(p.Out)
+				peer.Close()
+				srv.WaitStatus()
+			})
+			r.Calls(x.Steps)
+			if x.Outcome != "ok" {
+				r.Fail("G1", "batches", "server run ended with "+x.Outcome+" "+firstLine(x.Detail), "")
+				return
+			}
+			for ci, cb := range combos {
+				var names []string
+				allGood := true
+				for _, k := range cb {
+					names = append(names, kinds[k])
+					if k >= 2 {
+						allGood = false
+					}
+				}
+				input := "batch [" + strings.Join(names, ", ") + "]"
+				out := pipe.Out[marks[ci]:marks[ci+1]]
+				r.Case(fmt.Sprintf("batch/%d/allgood:%v/emitted:%d", len(cb), allGood, len(out)), true)
+				if allGood && len(out) != 1 {
+					r.Fail("C13.R3", input, fmt.Sprintf("%d records emitted for a batch whose members can all be encoded", len(out)), "")
+				}
+				for _, rec := range out {
+					for _, vi := range wireRules(rec, nil) {
+						r.Fail(vi.Rule, input, vi.Msg, "")
+					}
+					val, perr := strictParse(rec)
+					arr, _ := val.([]any)
+					if perr != "" || arr == nil {
+						continue
+					}
+					Hit("C13.R3")
+					for _, e := range arr {
+						m, _ := e.(map[string]any)
+						idf, _ := m["id"].(json.Number)
+						i := int(idf.String()[0]-'0') - 1
+						if len(idf.String()) != 1 || i < 0 || i >= len(cb) {
+							r.Fail("C13.R3", input, fmt.Sprintf("reply carries id %v, which no member of the batch had", m["id"]), "")
+							continue
+						}
+						switch kinds[cb[i]] {
+						case "ok":
+							if normJSON(m["result"]) != `"OK"` {
+								r.Fail("C13.R3", input, fmt.Sprintf("member %d: result parses back as %s, want \"OK\"", i+1, normJSON(m["result"])), "")
+							}
+						case "err":
+							if !sameJSON(normJSON(m["error"]), `{"code":7,"message":"e","data":[1]}`) {
+								r.Fail("C13.R3", input, fmt.Sprintf("member %d: error parses back as %s", i+1, normJSON(m["error"])), "")
+							}
+						}
+					}
+				}
+			}
+			r.Sample(map[string]any{"batch": []string{"ok", "err-data-not-json", "ok"}})
+		},
+	}
+}
+
 // c13Marshal: Response.MarshalJSON of responses obtained through a real client/server pair.
 func c13Marshal() *Scenario {
 	return &Scenario{
@@ -1105,7 +1220,7 @@ func c13Bridge() *Scenario {
 }
 
 func c13Scenarios(tier string) []*Scenario {
-	out := []*Scenario{c13Client(c13Methods(), "every method name of <=2 runes over 14 special runes x values of depth<=2 and white-space variants of raw params"), c13Server(), c13Marshal(), c13Bridge()}
+	out := []*Scenario{c13Client(c13Methods(), "every method name of <=2 runes over 14 special runes x values of depth<=2 and white-space variants of raw params"), c13Server(), c13ServerBatch(), c13Marshal(), c13Bridge()}
 	if tier == "quick" {
 		out = append(out, c13Parse(4))
 		return out
